@@ -31,6 +31,7 @@ RULE += ("  " + 'Also (round 6): the silent peer stalls inside login sequences (
 RULE += ("  " + "Also: reply flood, then QUIT behind a blocked reply writer; a closed stream whose remainder the peer reads before the linger timer fires (nothing may reach the loop's exception handler).")
 RULE += ("  " + 'Also (round 8): data connections made some time (< socket_timeout) before their command, several in a row; idle_timeout only: flood, QUIT, silence.')
 RULE += ("  " + 'Also (round 9): a handler that never returns with 0..400 commands pipelined behind it, then silence (idle_timeout is about the peer, not about handlers); a second transfer command without a data connection while an upload is in progress (its 425 comes wait_future_timeout after the command).')
+RULE += ("  " + 'Also (round 11): two transfer commands written in one piece and ONE data connection: 150, 150, completion of the first, 425 for the second within wait_future_timeout of that connection, PWD.')
 ASSUMPTIONS = ["virtual time; commands are delivered in one segment (MSS 1460) so that 'arrival of the command line' is one event",
                "mapping of configured values to channel/direction as documented: idle_timeout = control reads, socket_timeout = "
                "everything else"]
